@@ -47,14 +47,14 @@ func (st *State) rnd(t *Term) *Term {
 	abs := ts.Ite(ts.rcmp(ORLt, t, ts.RealF(0)), ts.RNeg(t), t)
 	d := ts.rbin(ORSub, r, t)
 	bound := ts.rbin(ORMul, eps, abs)
-	st.axiom(ts.And(ts.rcmp(ORLe, d, bound), ts.rcmp(ORLe, ts.RNeg(bound), d)))
+	ts.Define(r, ts.And(ts.rcmp(ORLe, d, bound), ts.rcmp(ORLe, ts.RNeg(bound), d)))
 	// rnd preserves sign and zero
 	zero := ts.RealF(0)
-	st.axiom(ts.And(ts.Or(ts.rcmp(ORLt, t, zero), ts.rcmp(ORLe, zero, r)), ts.Or(ts.rcmp(ORLt, zero, t), ts.rcmp(ORLe, r, zero))))
+	ts.Define(r, ts.And(ts.Or(ts.rcmp(ORLt, t, zero), ts.rcmp(ORLe, zero, r)), ts.Or(ts.rcmp(ORLt, zero, t), ts.rcmp(ORLe, r, zero))))
 	for _, seen := range st.rnds {
 		a := seen.args[0]
-		st.axiom(ts.Or(ts.Not(ts.rcmp(ORLe, a, t)), ts.rcmp(ORLe, seen, r)))
-		st.axiom(ts.Or(ts.Not(ts.rcmp(ORLe, t, a)), ts.rcmp(ORLe, r, seen)))
+		ts.Define(r, ts.Or(ts.Not(ts.rcmp(ORLe, a, t)), ts.rcmp(ORLe, seen, r)))
+		ts.Define(r, ts.Or(ts.Not(ts.rcmp(ORLe, t, a)), ts.rcmp(ORLe, r, seen)))
 	}
 	st.rnds = append(st.rnds, r)
 	return r
@@ -106,6 +106,12 @@ func (st *State) fArith(op token.Token, a, b *Term) *Term {
 			}
 		} else if rb.r.Sign() == 0 {
 			panic(pathEnd{"outside", "division by zero in the real reading (result would be Inf/NaN)"})
+		}
+		if !rb.isConst() {
+			// division elimination: q with q*b = a (b != 0 on this path)
+			q := ts.UF("fdiv", SReal, ra, rb)
+			ts.Define(q, ts.Eq(ts.rbin(ORMul, q, rb), ra))
+			return st.rnd(q)
 		}
 		return st.rnd(ts.rbin(ORDiv, ra, rb))
 	}
@@ -258,9 +264,16 @@ func (st *State) freshName(prefix string) string {
 // realFloor returns an Int term n with n <= x < n+1 (added as an axiom).
 func (st *State) realFloor(x *Term) *Term {
 	ts := st.ts
-	n := ts.Sym(st.freshName("floor"), SInt)
+	if x.op == OToReal {
+		return x.args[0] // already an integer
+	}
+	if x.isConst() {
+		f := new(big.Int).Div(x.r.Num(), x.r.Denom()) // Euclidean division: floor for a positive denominator
+		return ts.intern(&Term{op: OConst, sort: SInt, r: new(big.Rat).SetInt(f)})
+	}
+	n := ts.Sym(fmt.Sprintf("floor!t%d", x.id), SInt)
 	rn := ts.ToReal(n)
-	st.axiom(ts.And(ts.rcmp(ORLe, rn, x), ts.rcmp(ORLt, x, ts.rbin(ORAdd, rn, ts.RealF(1)))))
+	ts.Define(n, ts.And(ts.rcmp(ORLe, rn, x), ts.rcmp(ORLt, x, ts.rbin(ORAdd, rn, ts.RealF(1)))))
 	return n
 }
 
@@ -274,11 +287,17 @@ func (st *State) fCeil(a *Term) *Term {
 	if a.sort == SF64 {
 		return st.ts.fun1(OFCeil, a)
 	}
+	if a.op == OToReal {
+		return a
+	}
 	return st.ts.RNeg(st.ts.ToReal(st.realFloor(st.ts.RNeg(a))))
 }
 func (st *State) fTrunc(a *Term) *Term {
 	if a.sort == SF64 {
 		return st.ts.fun1(OFTrunc, a)
+	}
+	if a.op == OToReal {
+		return a
 	}
 	ts := st.ts
 	fl := st.fFloor(a)
@@ -298,7 +317,7 @@ func (st *State) fSqrt(a *Term) *Term {
 		panic(pathEnd{"outside", "sqrt of a negative number in the real reading (NaN)"})
 	}
 	s := ts.UF("sqrt", SReal, a)
-	st.axiom(ts.And(ts.rcmp(ORLe, ts.RealF(0), s), ts.Eq(ts.rbin(ORMul, s, s), a)))
+	ts.Define(s, ts.And(ts.rcmp(ORLe, ts.RealF(0), s), ts.Eq(ts.rbin(ORMul, s, s), a)))
 	return st.rnd(s)
 }
 
@@ -643,9 +662,20 @@ func (st *State) floatToInt(a *Term, w int, signed bool) *Term {
 	if tr.op == OToReal {
 		n = tr.args[0]
 	} else {
-		n = ts.Sym(st.freshName("trunc"), SInt)
-		st.axiom(ts.Eq(ts.ToReal(n), tr))
+		n = ts.Sym(fmt.Sprintf("trunc!t%d", tr.id), SInt)
+		ts.Define(n, ts.Eq(ts.ToReal(n), tr))
 	}
+	if (n.op == OBv2Int || n.op == OBv2IntS) && n.args[0].sort.width() == w && (n.op == OBv2IntS) == signed {
+		return n.args[0]
+	}
+	if n.op == OBv2Int && n.args[0].sort.width() == w {
+		return n.args[0] // uint -> float -> int: same bits when the value fits (assumed below 2^63)
+	}
+	// the real reading covers in-range conversions only
+	lim := new(big.Int).Lsh(big.NewInt(1), 63)
+	lo := ts.intern(&Term{op: OConst, sort: SInt, r: new(big.Rat).SetInt(new(big.Int).Neg(lim))})
+	hi := ts.intern(&Term{op: OConst, sort: SInt, r: new(big.Rat).SetInt(lim)})
+	st.assume(ts.And(ts.icmp(OILe, lo, n), ts.icmp(OILt, n, hi)))
 	return ts.intern(&Term{op: OInt2Bv, sort: bvSort(w), args: []*Term{n}, aux: w})
 }
 
